@@ -5,7 +5,7 @@ declare -A T=( [01]="C08 C09 C10 C12 C14" [02]="C11 C12" [03]="C09 C17 C08" [04]
                [06]="C12 C10 C01" [07]="C01 C02 C03 C16 C15" [08]="C01 C04 C16 C18" [09]="C13 C18 C01" [10]="C19 C05 C01"
                [11]="C06 C08 C04" [12]="C20" )
 for n in ${BENIGN_LIST:-01 02 03 04 05 06 07 08 09 10 11 12}; do
-  git -C /repo apply /tmp/benign/out/$n/patch.diff || { echo "$n: PATCH FAILED"; continue; }
+  git -C /repo apply /verif/benign/$n/patch.diff || { echo "$n: PATCH FAILED"; continue; }
   props="${T[$n]}"; [ "$1" = all ] && props="C01 C02 C03 C04 C05 C06 C07 C08 C09 C10 C11 C12 C13 C14 C15 C16 C17 C18 C19 C20"
   for P in $props; do
     r=$(./check $P 2>&1 | grep -v Warning | head -3 | tr '\n' ' ' | cut -c1-400)
